@@ -131,6 +131,8 @@ def mk(rng, nsel, having_kind, norder, limit, distinct, tie_first=False):
     if distinct and not gsel and rng.random() < 0.5:
         # un-aliased plain aggregates (reported under their text, e.g. max(v)): DISTINCT still sees every delivered column
         sel = [{"al": "%s(%s)" % (f, c), "e": aggref(f, c), "unaliased": 1} for f, c in rng.sample([(f, c) for f in FNS for c in ("v", "w")], nsel)]
+    if rng.random() < 0.15 and not sel[0].get("unaliased"):      # an alias that CONTAINS a keyword (cases, ordering): it is a name
+        sel[0]["al"] = rng.choice(["cases", "case_n", "ordering"])
     if tie_first:      # first select item = count(v) (few distinct values: ties), the others as usual
         sel[0] = {"al": "c0", "e": aggref("count", "v")}
     having = None
